@@ -587,6 +587,10 @@ func init() {
 	reg("internal/abi.NoEscape", func(in *Interp, fr *frame, a []Value) Value { return a[0] })
 	reg("internal/abi.Escape", func(in *Interp, fr *frame, a []Value) Value { return a[0] })
 
+	reg("github.com/buildbarn/bb-storage/pkg/blobstore/local.unixTime", func(in *Interp, fr *frame, a []Value) Value {
+		return float64(0) // wall-clock time: only feeds a metrics gauge
+	})
+
 	// ---- time ----
 	reg("time.Sleep", func(in *Interp, fr *frame, a []Value) Value { in.schedPoint("sleep"); return nil })
 
